@@ -426,10 +426,7 @@ func (w *World) apply(s *side, ev event, pre invObs) stepOut {
 			out.callErr = firstLine(err.Error())
 		}
 	case "settle":
-		p := invPreimage
-		if w.kind.JIT == "keysend" {
-			p = ksPreimage
-		}
+		p := w.kind.rightPreimage()
 		if !ev.right {
 			p = wrongPreimg
 		}
